@@ -194,6 +194,9 @@ func cmdCheck(args []string) int {
 			var rep *ReplayResult
 			if replays < maxReplays {
 				rep = tryReplay(L, id, g, o)
+				if rep == nil {
+					rep = tryWitness(L, o)
+				}
 				replays++
 			} else {
 				rep = &ReplayResult{Summary: fmt.Sprintf("replay skipped: more than %d failing obligations in this run", maxReplays)}
